@@ -265,6 +265,27 @@ impl World {
 				)
 			})
 			.collect();
+		// A channel whose funding output is already being spent (its ChannelMonitor allows no further
+		// updates) is closed by ChannelManager::read straight away, while the live manager closes it
+		// when it next handles the monitor's event: such channels are left out of the comparison.
+		let mut closing: Vec<String> = Vec::new();
+		for (ci, c) in self.chans.iter().enumerate() {
+			let in_outbox = self.nodes[n]
+				.broadcaster
+				.outbox
+				.lock()
+				.unwrap()
+				.iter()
+				.any(|(tx, _)| tx.input.iter().any(|i| i.previous_output == c.funding));
+			let spent = !self.chain.utxos.contains_key(&c.funding)
+				|| self.chain.mempool.iter().any(|t| t.input.iter().any(|i| i.previous_output == c.funding));
+			if in_outbox || spent {
+				closing.push(format!("{}", c.channel_id));
+				let _ = ci;
+			}
+		}
+		a.retain(|x| !closing.iter().any(|c| x.starts_with(c.as_str())));
+		b.retain(|x| !closing.iter().any(|c| x.starts_with(c.as_str())));
 		a.sort();
 		b.sort();
 		// inbound HTLCs the peer announced but never committed are dropped by the implied
